@@ -23,7 +23,7 @@ TECHNIQUE = ('deterministic simulation of run histories with fault '
              'injection; exactly-once oracle over signals, statement traces '
              'and the django_evolution table after every run')
 PLAN = {
-    'quick': {'count': 200, 'max_wall': 170, 'shrink_budget': 20,
+    'quick': {'count': 300, 'max_wall': 170, 'shrink_budget': 20,
               'shrink_wall': 150},
     'thorough': {'count': 4000, 'max_wall': 1700, 'shrink_budget': 50,
                  'shrink_wall': 400},
